@@ -16,16 +16,16 @@ PROFILES = {
     'C09': dict(weights=W_BASE, n_steps=(2, 14)),
     'C11': dict(weights={**{k: 0 for k in W_BASE}, 'compromise': 6, 'undo': 5, 'add_att': 2, 'remove_att': 3,
                          'attach': 2, 'remove_node': 0.5, 'add_node': 0.5, 'link': 0.5, 'copy': 0.3},
-                n_nodes=(3, 8), n_atts=(1, 3), n_steps=(3, 14)),
+                n_nodes=(3, 8), n_atts=(1, 3), n_steps=(3, 14), bad_ids=0.0),
     'C12': dict(weights={**{k: 0 for k in W_BASE}, 'q_surface': 3, 'q_trav': 4, 'q_update': 4, 'q_defsurface': 1,
                          'q_enabled': 1, 'compromise': 3, 'undo': 1, 'set_flags': 3, 'set_tags': 1, 'calc': 0.5},
                 n_nodes=(3, 8), n_links=(2, 12), n_atts=(1, 3), n_steps=(3, 12)),
     'C13': dict(weights={**{k: 0 for k in W_BASE}, 'prune': 4, 'set_flags': 4, 'calc': 2, 'compromise': 1,
-                         'link': 1, 'q_surface': 0.5},
+                         'link': 1, 'q_surface': 0.5, 'copy': 0.7},
                 n_nodes=(3, 9), n_links=(2, 12), n_atts=(0, 2), n_steps=(2, 8)),
     'C14': dict(weights={**{k: 0 for k in W_BASE}, 'copy': 4, 'set_ttc': 2, 'set_tags': 2, 'set_extras': 2,
                          'compromise': 2, 'undo': 1, 'link': 1, 'remove_node': 1, 'add_node': 1, 'set_flags': 1,
-                         'remove_att': 0.5, 'calc': 0.5, 'prune': 0.5},
+                         'remove_att': 0.5, 'calc': 0.5, 'prune': 0.5, 'attach': 1.5},
                 n_nodes=(2, 6), n_links=(1, 8), n_atts=(0, 2), n_steps=(3, 10)),
 }
 
@@ -60,15 +60,16 @@ def wf_violations(w: GW.World) -> list[str]:
     if len(g._id_to_attacker) != len(g.attackers): out.append('attacker index size differs from attacker list')
     return out
 
-def mirror_violations(w: GW.World) -> list[str]:
+def mirror_violations(w: GW.World, removed=()) -> list[str]:
     """C11: attacker.reached_attack_steps and node.compromised_by mirror each other — for every attacker and node
-    object the history created, whether or not it is (still) part of the graph."""
+    object the history created, whether or not it is (still) part of the graph; `removed` = the attackers that were
+    removed from the graph and not added again: no node may list one of them."""
     g = w.graph
     out = []
     for n in w.nodes:
         for a in n.compromised_by:
-            if _is(n, g.nodes) and not _is(a, g.attackers):
-                out.append(f'{n.full_name} lists an attacker that is not in the graph')
+            if _is(n, g.nodes) and _is(a, removed):
+                out.append(f'{n.full_name} lists an attacker that was removed from the graph')
             if not _is(n, a.reached_attack_steps): out.append(f'{n.full_name} lists {a.name} but is not reached by it')
         if len({id(a) for a in n.compromised_by}) != len(n.compromised_by):
             out.append(f'{n.full_name} lists an attacker twice')
@@ -154,6 +155,51 @@ def exhaustive_C08(n, stride):
             yield ops
 
 
+def fans_C08():
+    """Every fan: a defense (enabled / disabled) with two children (or / and, with or without a TTC distribution), linked in
+    either order, and a grandchild (or / and) below the first, the second or both — the shapes on which the order in which
+    the propagation visits pending steps matters."""
+    def sp(i, t, d, ttc):
+        return {'type': t, 'name': f's{i}', 'ttc': ttc, 'asset': 'a', 'def': d, 'exist': None,
+                'viable': True, 'necessary': True, 'mitre': None, 'tags': [], 'extras': {}}
+    kids = [(t, ttc) for t in ('or', 'and') for ttc in (None, GW.TTCS[3])]
+    for d in (0.0, 1.0):
+        for (t1, c1), (t2, c2) in itertools.product(kids, repeat=2):
+            for tg in ('or', 'and'):
+                for order in ((1, 2), (2, 1)):
+                    for below in ((1,), (2,), (1, 2)):
+                        ops = [('new', sp(0, 'defense', d, None)), ('add_node', 0, None), ('new', sp(1, t1, None, c1)), ('add_node', 1, None),
+                               ('new', sp(2, t2, None, c2)), ('add_node', 2, None), ('new', sp(3, tg, None, None)), ('add_node', 3, None)]
+                        ops += [('link', 0, k) for k in order] + [('link', k, 3) for k in below] + [('calc',)]
+                        yield ops
+
+
+def churn_C12(impl, rng):
+    """Defense queries before and after the graph's defenses are exchanged with the node count unchanged: a query, a defense
+    removed and another added (or its tags / the other way round), the queries again."""
+    g = GW.Gen(impl, rng, {k: 0 for k in W_BASE})
+    def defense(status):
+        i = g.nnames
+        g.nnames += 1
+        sp = GW.rand_spec(rng, i)
+        sp.update({'type': 'defense', 'def': status, 'ttc': None, 'tags': rng.choice([[], [], ['suppress']])})
+        g.do(('new', sp))
+        h = len(g.w.nodes) - 1
+        g.do(('add_node', h, None))
+        return h
+    g.build(rng.randint(1, 3), rng.randint(0, 3), rng.randint(0, 1))
+    ds = [defense(rng.choice([0.0, 1.0, 0.5])) for _ in range(rng.randint(1, 3))]
+    for _ in range(rng.randint(1, 3)):
+        g.do((rng.choice(['q_defsurface', 'q_enabled']),))
+        live = [h for h in ds if h in g.in_graph()]
+        if live and rng.random() < 0.8:
+            g.do(('remove_node', rng.choice(live)))
+        ds.append(defense(rng.choice([0.0, 1.0, 0.25])))
+        g.do(('q_defsurface',))
+        g.do(('q_enabled',))
+    return g.ops
+
+
 def guarded_prefix(impl, prelude, seq):
     """Keep the longest prefix of seq whose operations are applicable (handles live in the graph)."""
     w = GW.World(impl)
@@ -201,6 +247,11 @@ def make_cases(pid: str, impl, tier: str, seed: int):
     if pid == 'C08':
         for ops in exhaustive_C08(2, 8 if tier == 'quick' else 1):
             histories.append(('exhaustive', ops))
+        for ops in fans_C08():
+            histories.append(('fans', ops))
+    if pid == 'C12':
+        for _ in range(60 if tier == 'quick' else 600):
+            histories.append(('churn', churn_C12(impl, rng)))
     for _ in range(n_random):
         kw = {k: v for k, v in prof.items() if k != 'weights'}
         ops = GW.gen_history(impl, rng, prof['weights'], **kw)
@@ -300,6 +351,7 @@ def run_with_predicates(pid, impl, ops, per_case_timeout=10):
     import signal
     w = GW.World(impl)
     outs, viol = [], []
+    removed_atts = []        # C11: attackers removed from the graph and not added again
     boundary = None          # first handle of the most recent copy
     old = signal.signal(signal.SIGALRM, GW._alarm)
     signal.alarm(per_case_timeout)
@@ -315,7 +367,7 @@ def run_with_predicates(pid, impl, ops, per_case_timeout=10):
                        'wf': wf_violations(w)}
             if pid == 'C14' and boundary is not None:
                 touched = [op[j] for j in HANDLE_ARGS.get(k, [])]
-                if k in HANDLE_ARGS and all(h >= boundary[0] for h in touched) or k in ('calc', 'prune', 'remove_att'):
+                if k in HANDLE_ARGS and all(h >= boundary[0] for h in touched) or k in ('calc', 'prune', 'remove_att', 'attach'):
                     pre = w.obs()
             if pid == 'C11' and k == 'attach':
                 pre = (len(w.graph.attackers), dict(w.graph._full_name_to_node))
@@ -356,7 +408,13 @@ def run_with_predicates(pid, impl, ops, per_case_timeout=10):
                 for m in wf_violations(w):
                     viol.append((i, m))
             elif pid == 'C11':
-                for m in mirror_violations(w):
+                if k == 'remove_att' and oc == 0 and not _is(w.atts[op[1]], removed_atts):
+                    removed_atts.append(w.atts[op[1]])
+                if k == 'add_att':
+                    removed_atts[:] = [x for x in removed_atts if x is not w.atts[op[1]]]
+                if k == 'copy':
+                    removed_atts[:] = []
+                for m in mirror_violations(w, removed_atts):
                     viol.append((i, m))
                 if k == 'attach' and oc == 0:
                     for m in attach_violations(w, op[1], pre[0], pre[1]):
@@ -378,6 +436,9 @@ def run_with_predicates(pid, impl, ops, per_case_timeout=10):
                 if k == 'q_enabled':
                     exp = [w.nh(n) for n in w.graph.nodes if n.type == 'defense' and 'suppress' not in n.tags and n.defense_status == 1.0]
                     if sorted(ret) != sorted(exp): viol.append((i, 'enabled defenses differ from their definition'))
+            elif pid == 'C13' and k == 'prune' and oc != 0:
+                if not pre['wf']:
+                    viol.append((i, 'pruning a coherent graph raised'))
             elif pid == 'C13' and k == 'prune' and oc == 0:
                 now = [w.nh(n) for n in w.graph.nodes]
                 if any(_prunable(n) for n in w.graph.nodes): viol.append((i, 'a prunable node survived pruning'))
@@ -508,10 +569,10 @@ def check(pid: str, tier: str, seed: int):
                             'theorems are about the Gallina model; the model is tied to the code by this run only']}
 
 RULES = {
-    'C08': 'every 2-node graph over type x status x {no TTC, TTC distribution} x every edge set incl. self-loops (every 8th in quick, all in thorough) + seeded random fresh-labelled graphs of 2-7 nodes with a random reordering of the node list before the analysis; non-trivial = some label ends up false; distinct by final observation',
+    'C08': 'every 2-node graph over type x status x {no TTC, TTC distribution} x every edge set incl. self-loops (every 8th in quick, all in thorough) + every 4-node fan (defense on/off, two children or/and with/without a TTC distribution linked in either order, a grandchild below one or both; 384) + seeded random fresh-labelled graphs of 2-7 nodes with a random reordering of the node list before the analysis; non-trivial = some label ends up false; distinct by final observation',
     'C09': 'seeded random guarded histories over all graph operations; non-trivial = final graph non-empty and >3 kinds of operation; distinct by (outcomes, final observation)',
     'C11': 'all sequences of 2 (quick) / 3 (thorough) operations over 15 operations on a 3-node 2-attacker graph + seeded random histories; non-trivial = some attacker has reached steps and the history contains undo / remove_attacker / attach',
-    'C12': 'seeded random labelled graphs with 1-3 attackers and interleaved compromises / queries; non-trivial = some query returned a non-empty list',
+    'C12': 'seeded random labelled graphs with 1-3 attackers and interleaved compromises / queries + defense churn (defense queries, a defense removed and another added with the node count unchanged, the queries again); non-trivial = some query returned a non-empty list',
     'C13': 'seeded random labelled graphs (runs of adjacent prunable nodes arise from random labels); non-trivial = history prunes and some node is labelled non-viable or unnecessary',
     'C14': 'seeded random histories with deep copies followed by mutations of the copy and of the original; non-trivial = history contains a copy of a graph with >2 node objects',
 }
